@@ -85,7 +85,7 @@ def ns_items(eng):
 @unit(("C03", "C01"), "kitty:Transmission.get_chunks")
 def u_get_chunks(ctx):
     eng = ctx.engine("C03/Transmission.get_chunks", "C03")
-    eng.default_replay = "C03.chunks"
+    eng.default_replay = {"C03": "C03.render", "C01": "C01.render"}
     st = State()
     cs = ctx.ns("term_image._ctlseqs")
     eng.genv["KITTY_TRANSMISSION"] = cs.d["KITTY_TRANSMISSION"]
@@ -215,7 +215,7 @@ def kitty_unit(method, mode):
     @unit(("C01", "C03"), f"kitty:KittyImage._render_image[{method},{mode}]")
     def u(ctx, method=method, mode=mode):
         eng = ctx.engine(f"C01/kitty._render_image[{method},{mode}]", "C01")
-        eng.default_replay = "C01.render"
+        eng.default_replay = {"C01": "C01.render", "C03": "C03.render", "C11": "C11.fds"}
         st = State()
         ns = ctx.ns("term_image.image.kitty")
         cs = ctx.ns("term_image._ctlseqs")
@@ -327,17 +327,35 @@ def kitty_unit(method, mode):
                      And(Eq(fmt, 24 if mode == "RGB" else 32), Eq(h["C"], 1), h["a"] == "T", h["t"] == "d", Eq(h["z"], zidx)), prop="C03", kind="pre")
             s.ghost["tx_count"] = i + 1
             s.ghost["raw_covered"] = payload.f["hi"]
-            t_ = s.new("Transmission", {"control": control, "payload": payload, "level": lvl, "c": h["c"], "r": h["r"]})
-            return [(t_, s)]
+            t_ = s.new("Transmission", {"control": control, "payload": payload, "level": lvl})
+            # the real __post_init__ (and compress) decide about compression and the `o` key
+            return [(t_, s2) for _, s2 in e.call(tx_post_init, (t_,), {}, s)]
+        tx_post_init = inline(ctx.fn(KITTY, "Transmission.__post_init__"), eng)
+        tx_compress = inline(ctx.fn(KITTY, "Transmission.compress"), eng)
+        eng.methods[("Transmission", "compress")] = lambda e, s, recv, a, k: e.call(tx_compress, (recv,), {}, s)
+
+        def zlib_compress(e, s, a, k):
+            n = e.sym_int("zlen")
+            s.pc.append(n >= 1)
+            return [(Rec("bytes", {"base": "zlib", "lo": z3.IntVal(0), "hi": n, "zlib_of": a[0]}), s)]
+        eng.genv["compress"] = Fn(zlib_compress)
+        orig_len = eng.genv.get("len")
+        eng.genv["len"] = Fn(lambda e, s, a, k: [(a[0].f["hi"] - a[0].f["lo"], s)] if isinstance(a[0], Rec) and a[0].name == "bytes" else
+                             __import__("pyvc.engine", fromlist=["BUILTINS"]).BUILTINS["len"](e, s, a, k))
         eng.methods["new:Transmission"] = new_trans
         eng.genv["Transmission"] = ClassV("Transmission")
 
-        def tx_piece(s, recv):
+        def tx_piece(e, s, recv):
             # contract of get_chunks (unit above): a complete, well-framed transmission with the control keys *as they are now*
             ctl = s.H(s.H(recv)["control"])
+            pay = s.H(recv)["payload"]
+            compressed = "zlib_of" in pay.f
+            e.oblige("C03:o=z-iff-the-payload-handed-over-is-zlib-compressed", s, (ctl["o"] == "z") == compressed and ctl["o"] in ("z", None), prop="C03", kind="pre")
+            raw = pay.f["zlib_of"] if compressed else pay
+            e.oblige("C03:transmitted-bytes-are-the-strip(compressed-or-not)", s, raw.f.get("base") == "raw", prop="C03", kind="pre")
             return TS([tstr.Placement("kitty", ctl["c"], ctl["r"], moves_cursor=False)])
-        eng.methods[("Transmission", "get_chunks")] = lambda e, s, recv, a, k: [((tx_piece(s, recv),), s)]
-        eng.methods[("Transmission", "get_chunked")] = lambda e, s, recv, a, k: [(tx_piece(s, recv), s)]
+        eng.methods[("Transmission", "get_chunks")] = lambda e, s, recv, a, k: [((tx_piece(e, s, recv),), s)]
+        eng.methods[("Transmission", "get_chunked")] = lambda e, s, recv, a, k: [(tx_piece(e, s, recv), s)]
 
         if method == "lines":
             bpl_inv = (rw * cw) * ch * bpp
@@ -362,6 +380,13 @@ def kitty_unit(method, mode):
                 s.ghost["tx_count"], s.ghost["raw_covered"] = z3.Int(f"txc!{tag}"), z3.Int(f"rawc!{tag}")
                 s.H(s.lookup("raw_image"))["pos"] = z3.Int(f"rawpos!{tag}")
                 s.env["trans"] = Opaque("trans")
+                # the shared ControlData's `o` key is rewritten by every Transmission: it may be either value at the loop head
+                heads = []
+                for oval in (None, "z"):
+                    s2 = e.fork(s)
+                    s2.H(s2.lookup("control_data"))["o"] = oval
+                    heads.append(s2)
+                return heads
             # loops of the function in source order: 1 = first `for chunk`, 2 = `for _ in range(r_height - 1)`, 3 = inner `for chunk`
             eng.invariants = {2: LoopSpec(inv, havoc)}
         blend, mix = z3.Bools("blend mix")
